@@ -106,6 +106,7 @@ func cmdCheck(args []string) int {
 	tags := fs.String("tags", "", "build tags")
 	noEvidence := fs.Bool("no-evidence", false, "do not write evidence (used by sensitivity runs)")
 	fs.Parse(args)
+	flattenVerifDir = *verif
 	pd := props[*prop]
 	if pd == nil {
 		fmt.Printf("ERROR unknown property %q\n", *prop)
